@@ -13,6 +13,7 @@ import (
 	"context"
 	"errors"
 	"fmt"
+	"math"
 	"runtime"
 	"sort"
 	"strings"
@@ -264,6 +265,14 @@ func sequentialCase(c *vh.Case) {
 		case x < 80:
 			// After on a random index, possibly on an unknown stream
 			idx := r.Range(-1, 6)
+			if r.Chance(1, 6) {
+				// positions at and far beyond the end of the stream, up to the largest int (nothing lies after them)
+				n := 0
+				if rs := ref[k]; rs != nil {
+					n = len(rs.log)
+				}
+				idx = []int{n - 1, n, n + 1, n + 1000, math.MaxInt32, math.MaxInt - 1, math.MaxInt}[r.Intn(7)]
+			}
 			ops = append(ops, seqOp{Op: "after", Sess: sess, Stream: stream, Index: idx})
 			sig.WriteString("F")
 			got, err := afterAll(s, sess, stream, idx)
@@ -279,16 +288,16 @@ func sequentialCase(c *vh.Case) {
 			if err != nil {
 				if !errors.Is(err, mcp.ErrEventsPurged) {
 					c.Violate("after-unexpected-error", "After(%v,%d) = %v", k, idx, err)
-				} else if idx+1 >= rs.first {
-					c.Violate("purged-but-retained", "After(%v,%d) = ErrEventsPurged but index %d.. is retained (first=%d)", k, idx, idx+1, rs.first)
+				} else if idx >= rs.first-1 { // (no idx+1: idx may be the largest int)
+					c.Violate("purged-but-retained", "After(%v,%d) = ErrEventsPurged but everything after index %d is retained (first=%d, appended=%d)", k, idx, idx, rs.first, len(rs.log))
 				}
 				continue
 			}
 			want := [][]byte(nil)
-			if idx+1 < len(rs.log) {
+			if idx < len(rs.log)-1 {
 				want = rs.log[idx+1:]
 			}
-			if idx+1 < rs.first {
+			if idx < rs.first-1 {
 				c.Violate("gapped-replay", "After(%v,%d) succeeded with %d items although items before %d were evicted", k, idx, len(got), rs.first)
 			} else if !eqSlices(got, want) {
 				c.Violate("after-mismatch", "After(%v,%d) = %q, want %q", k, idx, trunc(got), trunc(want))
